@@ -1,0 +1,41 @@
+//go:build verif
+
+package replica
+
+import "github.com/lindb/lindb/models"
+
+// VerifReplicaStep runs one iteration of the replication loop of the partition for the
+// replicator of the given node on the caller's goroutine (the production path is
+// StartReplica -> replicaLoop -> replica). It returns false if no such replicator exists.
+// Build tag verif only.
+func VerifReplicaStep(p Partition, nodeID models.NodeID) bool {
+	pp, ok := p.(*partition)
+	if !ok {
+		return false
+	}
+	pp.mutex.Lock()
+	r, ok := pp.replicators[nodeID]
+	pp.mutex.Unlock()
+	if !ok {
+		return false
+	}
+	pp.replica(nodeID, r)
+	return true
+}
+
+// VerifReplicator returns the replicator of the partition for the node (nil if none).
+func VerifReplicator(p Partition, nodeID models.NodeID) Replicator {
+	pp, ok := p.(*partition)
+	if !ok {
+		return nil
+	}
+	pp.mutex.Lock()
+	defer pp.mutex.Unlock()
+	return pp.replicators[nodeID]
+}
+
+// VerifRecovery rebuilds the replicators of a reopened partition from its consumer groups
+// (what WriteAheadLog.recovery does for every partition found on disk).
+func VerifRecovery(p Partition, leader models.NodeID) error {
+	return p.recovery(leader)
+}
